@@ -51,8 +51,8 @@ CLAIMED = {
     "C10": ("proof", "tensor-product quadrature is the row-major product of the 1D rules (E1), tensor_shape under part=diagonal (E1), "
             "sum factorisation restricted to cell integrals (syntactic), full table = outer product of factor tables and blockmaps on "
             "corpus IRs (bounded), extents/frame of every corpus kernel generated with sum_factorization=True and part=diagonal (E2); E3 metamorphic (bounded): kernels generated with sum_factorization on/off and part=diagonal/full are executed on identical pseudo-random non-affine data and compared.",
-            "Equality of the tensors under the options is decided only on the corpus (bounded); F14 (RuntimeError when sum factorisation does not apply) "
-            "is not checked.", "VC generation (z3) + per-kernel SMT obligations + run-time IR invariants (bounded)", "4 C10"),
+            "Equality of the tensors under the options is decided only on the corpus (bounded); options that do not apply have no effect: exhaustive over a listed set of (form, integral, option) cases on the real pipeline (identical kernel text with and without the option).",
+            "VC generation (z3) + per-kernel SMT obligations + run-time IR invariants (bounded)", "4 C10"),
     "C11": ("proof", "each integral of a group keeps its own degree/scheme (E1 fragment of _analyze_form); every contribution to A of every "
             "corpus kernel depends on tables of its own quadrature rule (E2 rule-consistency); E3 numeric (bounded) compares multi-rule corpus kernels with a reference that integrates each integrand with its own rule.",
             "Exactness of basix rules and UFL degree estimation external; corpus-bounded over programs.",
